@@ -58,6 +58,12 @@ def gen(rng, n_tus=None, n_platforms=None, outside=False, missing=0.0, toggles=T
     def detectors(n):
         out = []
         for _ in range(n):
+            if rng.random() < 0.2:
+                # the condition names LVLX, which is defined in terms of the command-line macro LVL
+                out.append(["define", "LVLX", "LVL"])
+                out.append(["chain", [["if", rng.choice(["LVLX >= 2", "LVLX == 1", "LVLX + 1 > 3", "LVLX"]), [["code"]]],
+                                      ["else", None, [["code"]]]]])
+                continue
             m = rng.choice(all_macros + ["A", "B", "C", "T"])
             kw = rng.choice(["ifdef", "ifndef"])
             br = [[kw, m, [["code"]]]]
@@ -111,6 +117,13 @@ def gen(rng, n_tus=None, n_platforms=None, outside=False, missing=0.0, toggles=T
             else:
                 body.append(["chain", [["ifdef", rng.choice(["A", "B", "C"]), [["code"], inc_item(names, d)]],
                                        ["else", None, [["code"]]]]])
+        if rng.random() < 0.25 and len(names) >= 2:
+            # X-macro pattern: the same computed #include directive is reached twice with IMPL redefined in between
+            files["inc/dispatch.h"] = [["code"], ["include", "m", "IMPL"], ["code"]]
+            a, b_ = rng.sample(names, 2)
+            form = rng.choice(['"%s"', "<%s>"])
+            body += [["define", "IMPL", form % a], ["include", rng.choice("qa"), "dispatch.h"], ["undef", "IMPL"],
+                     ["define", "IMPL", form % b_], ["include", "q", "dispatch.h"], ["undef", "IMPL"]]
         body.extend(detectors(rng.randint(1, 3)))
         if forced:
             body.append(["chain", [["ifdef", "FROM_PRE", [["code"]]], ["else", None, [["code"]]]]])
@@ -122,6 +135,8 @@ def gen(rng, n_tus=None, n_platforms=None, outside=False, missing=0.0, toggles=T
         for sd in sdirs:
             search.append([rng.choice(["I", "I", "isystem"]), sd])
         defines = [x for x in ["A", "B=1", "C=0", "T"] if rng.random() < 0.35]
+        if rng.random() < 0.7:
+            defines.append("LVL=%d" % rng.randint(0, 3))
         includes = []
         if forced and rng.random() < 0.4:
             includes.append(rng.choice(["@abs:inc/pre.h", "pre.h" if any(s[1] == "inc" for s in search) else "@abs:inc/pre.h",
@@ -139,7 +154,7 @@ def gen(rng, n_tus=None, n_platforms=None, outside=False, missing=0.0, toggles=T
 def _expand_computed(body):
     out = []
     for it in body:
-        if it[0] == "include" and it[1] == "m" and it[2] != "HDR":
+        if it[0] == "include" and it[1] == "m" and it[2] not in ("HDR", "IMPL"):
             out += [["define", "HDR", it[2]], ["include", "m", "HDR"], ["undef", "HDR"]]
         elif it[0] == "chain":
             out.append(["chain", [[kw, e, _expand_computed(b)] for kw, e, b in it[1]]])
